@@ -38,8 +38,8 @@ def gen_cases(tier, seed):
             mapcases.random_large_cases(rng, 18, max_leaves=14,
                                         max_cells=40)
     else:
-        cases = mapcases.nasty_quick_cases(rng, 100) + \
-            mapcases.random_large_cases(rng, 200, max_leaves=20,
+        cases = mapcases.nasty_quick_cases(rng, 300) + \
+            mapcases.random_large_cases(rng, 600, max_leaves=20,
                                         max_cells=120)
     for i, c in enumerate(cases):
         c['bootstrap_factor'] = 1.0
